@@ -13,7 +13,7 @@ COMMON_ASSUMPTIONS = [
     "the hand-written Gallina model corresponds to the Rust code only as far as the correspondence generators exercise it (differential testing, sizes in coverage.ops)",
 ]
 
-ALL_FEATURE_SETS = [[], ["likely"], ["serde"], ["likely", "serde", "macros"]]
+ALL_FEATURE_SETS = [[], ["likely"], ["serde"], ["likely", "macros", "serde"]]
 
 
 def simple(suite, ops=None, features=(), extra=()):
@@ -63,6 +63,31 @@ PROPS = {
     "C11": {"runs": lambda tier: [run("langid", ops=["li_matches", "lang_matches"]), run("locale", ops=["loc_matches"], features=["likely"])], "rule": LOCALE_RULE},
     "C12": {"runs": lambda tier: [run("langid", ops=["li_cmp", "li_eq_str"]), run("locale", ops=["loc_cmp"], features=["likely"])], "rule": LOCALE_RULE},
     "C13": {"runs": lambda tier: [run("locale", ops=["both", "loc_conv"], features=["likely"])], "rule": LOCALE_RULE},
+    "C20": {
+        "runs": lambda tier: [dict(run("c20", features=f), digest=True) for f in
+                              ([[], ["likely"], ["likely", "macros", "serde"]] if tier != "thorough" else
+                               [[], ["likely"], ["serde"], ["macros"], ["likely", "serde"], ["likely", "macros"], ["macros", "serde"], ["likely", "macros", "serde"]])],
+        "digest_compare": True,
+        "rule": "suite `c20`: the same seeded corpus (regression corpus, token sequences, random well-formed locales and mutations through Locale / "
+                "LanguageIdentifier / canonicalize of the impl AND facade crates, matches / cmp / hash pairs, operation histories without maximize/minimize) built "
+                "and run under each feature configuration (quick: none, likelysubtags, all three; thorough: all eight); every transcript must equal the model's and "
+                "the SHA-256 of the transcripts outside the character_direction column must be identical across configurations",
+        "trusted_extra": ["cargo feature unification is exercised, not modelled"],
+    },
+    "C16": {
+        "runs": lambda tier: [run("macros", features=["likely", "macros", "serde"])],
+        "rule": "generated crates under _build/c16 (deleted after the run): every literal (fixed well-formed / ill-formed lists for the six element macros, random "
+                "well-formed langids and locales with all extension shapes, odd case, '_' separators, `und`; 1-2 edit mutations) is classified by the model; those it "
+                "accepts go into a crate that must COMPILE and whose values are compared at run time with run-time parsing (under catch_unwind), the others into a crate "
+                "where rustc must report an error whose expansion root is the invocation's own line (cargo build --message-format=json); langids!/langid_slice!/locales! "
+                "are checked against the element macro. non-trivial = distinct literals the model accepts",
+        "trusted_extra": ["rustc, proc-macro-hack, syn/quote and error spans are exercised, not modelled"],
+    },
+    "C19": {"runs": lambda tier: [run("serde", features=["serde"])],
+            "rule": "suite `serde` (harness built with the serde feature): C02's token-sequence space, random well-formed identifiers and mutations, each string "
+                    "serialised (to_string and to_value) and deserialised through four serde_json paths (plain literal, all-\\uXXXX literal, Value::String, from_slice); "
+                    "strings needing JSON escapes; fixed and random non-string JSON values. non-trivial = distinct inputs the model accepts",
+            "trusted_extra": ["serde 1.x / serde_json 1.x are exercised, not modelled"]},
     "C17": {"runs": lambda tier: [run("subtags", ops=["lang_raw", "script_raw", "region_raw", "variant_raw"]), run("langid", ops=["li_from_parts", "li_into_parts"]),
                                   run("locale", ops=["loc_into_parts"], features=["likely"])], "rule": LOCALE_RULE},
 
